@@ -161,7 +161,7 @@ OWNED = {'read_verdict', 'read_sections', 'read_readouts', 'read_probabilities',
 
 def stage(rep, wd, jobs, tier):
     # ---- the specification itself: reader invariants on every enumerated text, writer/reader/comparison round trip
-    maxl = 4 if tier == 'quick' else 6
+    maxl = 4 if tier == 'quick' else 5
     sink = core.Sink('<<"VL", ', 6000 if tier == 'quick' else 120000)
     cfg = ('SPECIFICATION Spec\nCONSTANTS\n Mode = "lines"\n MaxLines = %d\nINVARIANT Emit\nINVARIANT ResetInv\n'
            'INVARIANT SubIndexInv\nINVARIANT PrefixInv\nINVARIANT NoneInv\n' % maxl)
